@@ -111,6 +111,9 @@ type cleanEntry struct {
 	Ord  int    `json:"ord"`
 	Val  Val    `json:"val"` // the body is refEscape(formatted value)
 	Live bool   `json:"live"`
+	// Parked: the entry belongs to a test that calls snaps.Skip before its first Match* call in this process: neither
+	// replayed nor stale - it stays, in every mode, through every rewrite
+	Parked bool `json:"test_skipped_in_this_process,omitempty"`
 }
 
 type cleanFile struct {
@@ -118,6 +121,9 @@ type cleanFile struct {
 	Cfg     CfgSpec      `json:"cfg"`
 	Entries []cleanEntry `json:"entries"` // in file order
 	Perm2   []int        `json:"perm2"`   // a second initial order of the same entries (metamorphic relation)
+	// Slack: extra blank lines in front of the entry at each position (and behind the last one): what a hand-resolved merge
+	// or an editor leaves; the same entries for every reader of the format
+	Slack []int `json:"extra_blank_lines,omitempty"`
 }
 
 type c10Case struct {
@@ -159,6 +165,26 @@ func genCleanFile(t *rapid.T, cfg CfgSpec, names []string, o textOpts, col *coll
 		if len(es) >= maxEntries {
 			break
 		}
+		if staleOK && len(es) > 0 && rapid.IntRange(0, 5).Draw(t, "parked") == 0 {
+			// (not the first test of the file: a skipped test that is the only owner of a file is C08's K2; and no other
+			// test of the pool is a sub test of this one: a skip protects the whole subtree)
+			subtree := false
+			for _, other := range names {
+				if strings.HasPrefix(other, name+"/") {
+					subtree = true
+				}
+			}
+			hasLive := false
+			for _, e := range es {
+				hasLive = hasLive || e.Live
+			}
+			if !subtree && hasLive {
+				for k := rapid.IntRange(1, 3).Draw(t, "nparked"); k >= 1; k-- {
+					es = append(es, cleanEntry{Test: name, Ord: k, Val: genVal(t, o, col), Parked: true})
+				}
+				continue
+			}
+		}
 		live := rapid.IntRange(0, 4).Draw(t, "nlive")
 		if rapid.IntRange(0, 6).Draw(t, "manylive") == 0 {
 			live = rapid.IntRange(9, 12).Draw(t, "nlive10")
@@ -189,6 +215,9 @@ func genCleanFile(t *rapid.T, cfg CfgSpec, names []string, o textOpts, col *coll
 		f.Entries = append(f.Entries, es[p])
 	}
 	f.Perm2 = rapid.Permutation(indices(len(es))).Draw(t, "order2")
+	if rapid.IntRange(0, 3).Draw(t, "slack") == 0 {
+		f.Slack = rapid.SliceOfN(rapid.IntRange(0, 3), len(es)+1, len(es)+1).Draw(t, "slacklines")
+	}
 	return f
 }
 
@@ -218,6 +247,37 @@ func genC10(t *rapid.T) c10Case {
 		cfg := CfgSpec{Dir: "snaps", Filename: []string{"f", "g"}[i]}
 		c.Files = append(c.Files, genCleanFile(t, cfg, names, o, col, 25, true))
 	}
+	// a skip protects the test (and its sub tests) in EVERY file: a test is parked only if none of its entries anywhere is
+	// meant to be replayed or stale
+	for fi := range c.Files {
+		for ei := range c.Files[fi].Entries {
+			e := c.Files[fi].Entries[ei]
+			if !e.Parked {
+				continue
+			}
+			for fj := range c.Files {
+				for _, o := range c.Files[fj].Entries {
+					if !o.Parked && (o.Test == e.Test || strings.HasPrefix(o.Test, e.Test+"/")) {
+						c.Files[fi].Entries[ei].Parked = false
+					}
+				}
+			}
+		}
+	}
+	for fi := range c.Files {
+		// (all or none of a test's entries in a file)
+		un := map[string]bool{}
+		for _, e := range c.Files[fi].Entries {
+			if !e.Parked {
+				un[e.Test] = true
+			}
+		}
+		for ei := range c.Files[fi].Entries {
+			if un[c.Files[fi].Entries[ei].Test] {
+				c.Files[fi].Entries[ei].Parked = false
+			}
+		}
+	}
 	if nfiles == 2 && rapid.IntRange(0, 3).Draw(t, "ghost") == 0 {
 		for i := range c.Files[0].Entries {
 			c.Files[0].Entries[i].Live = false
@@ -228,12 +288,18 @@ func genC10(t *rapid.T) c10Case {
 }
 
 func (f cleanFile) render(order []int) string {
-	var es []Entry
-	for _, i := range order {
+	var sb strings.Builder
+	for pos, i := range order {
 		e := f.Entries[i]
-		es = append(es, Entry{ID: BS(e.id()), Body: BS(e.body())})
+		if pos < len(f.Slack) {
+			sb.WriteString(strings.Repeat("\n", f.Slack[pos]))
+		}
+		sb.WriteString(refRender([]Entry{{ID: BS(e.id()), Body: BS(e.body())}}))
 	}
-	return refRender(es)
+	if len(f.Slack) > len(order) && len(order) > 0 {
+		sb.WriteString(strings.Repeat("\n", f.Slack[len(order)]))
+	}
+	return sb.String()
 }
 
 // runCleanProcess: a process that replays every live entry (all must pass) and then calls Clean.
@@ -261,6 +327,16 @@ func runCleanProcess(root string, files []cleanFile, mode Mode, count int, sortO
 				ft.finish()
 				if out, _ := outcomeOf(r); out != oFailed {
 					return "", fmt.Errorf("ghost call (missing snapshot, Update(false)) ended as %q", out)
+				}
+			}
+			parked := map[string]bool{}
+			for _, e := range f.Entries {
+				if e.Parked && !parked[e.Test] {
+					parked[e.Test] = true
+					ft := newFakeT(e.Test)
+					callSkip(func() { Skip(ft, "parked in this run") })
+					ft.drain()
+					ft.finish()
 				}
 			}
 			sort.Strings(order)
@@ -347,7 +423,7 @@ func checkC10(c c10Case) error {
 		hasStale := false
 		var ids []string
 		for _, e := range f.Entries {
-			if !e.Live {
+			if !e.Live && !e.Parked {
 				hasStale = true
 				if deletes {
 					continue
@@ -401,7 +477,7 @@ func checkC10(c c10Case) error {
 	for i, f := range c.Files {
 		survivors[i] = cleanFile{Cfg: f.Cfg, Ghost: f.Ghost}
 		for _, e := range f.Entries {
-			if (e.Live || !deletes) && !(deletes && dirVisited && !addressed[i]) {
+			if (e.Live || e.Parked || !deletes) && !(deletes && dirVisited && !addressed[i]) {
 				survivors[i].Entries = append(survivors[i].Entries, e)
 			}
 		}
@@ -456,7 +532,14 @@ func checkC10(c c10Case) error {
 				continue
 			}
 			got := readFile(filepath.Join(root2, f.Cfg.multiPath()))
-			if got != results[i] {
+			same := got == results[i]
+			if len(f.Slack) > 0 {
+				// a file that was in order already is not rewritten and keeps its blank lines: the ENTRIES are what must agree
+				e1, err1 := refParse(results[i])
+				e2, err2 := refParse(got)
+				same = err1 == nil && err2 == nil && refRender(e1) == refRender(e2)
+			}
+			if !same {
 				return fmt.Errorf("file %s: sorted result depends on the initial order:\norder 1 -> %q\norder 2 -> %q", f.Cfg.multiPath(), clip(results[i]), clip(got))
 			}
 		}
@@ -515,8 +598,11 @@ func classifyC10(c c10Case) ([]string, bool) {
 		stale := false
 		special := false
 		for _, e := range f.Entries {
-			if !e.Live {
+			if !e.Live && !e.Parked {
 				stale = true
+			}
+			if e.Parked {
+				cls = append(cls, "entries_of_a_test_skipped_in_this_process")
 			}
 			for _, ft := range textFeatures(e.Val.Text()) {
 				if ft == "blank_line" || ft == "terminator_or_escape_line" || ft == "header_like_line" || ft == "edge_newline" {
